@@ -121,8 +121,9 @@ where
                 if no_duplicates {
                     // There are no duplicate constant constraints. Create a new constraint
                     // to follow the fulfillment of the variable domain constraints.
-                    let c = DistinctFd2Constraint::new(self.u.clone(), x, n);
-                    Ok(state.with_constraint(c))
+                    // Run it right away: members that are variables already bound to values
+                    // must be checked now, nothing else will wake the constraint up.
+                    DistinctFd2Constraint::new(self.u.clone(), x, n).run(state)
                 } else {
                     // If there are duplicate constants in the array, then the constraint is
                     // already violated.
